@@ -21,6 +21,8 @@ mod rx_import;
 mod rx_lexer;
 mod rx_syntax;
 mod rx_serial;
+mod refcodec;
+mod rx_filters;
 
 fn main() {
     let args: Vec<String> = std::env::args().collect();
@@ -48,6 +50,8 @@ fn main() {
         "lexer" => rx_lexer::run(&args[2], &args[3], &opts),
         "syntax" => rx_syntax::run(&args[2], &args[3], &opts),
         "serial" => rx_serial::run(&args[2], &args[3], &opts),
+        "filters" => rx_filters::run(&args[2], &args[3], &opts),
+        "encoders" => rx_filters::run_encoders(&args[2], &args[3], &opts),
         "cache" => rx_cache::run(&args[2], &args[3], &opts),
         "widths" => rx_font::run_widths(&args[2], &args[3], &opts),
         "cmap" => rx_font::run_cmap(&args[2], &args[3], &opts),
